@@ -108,8 +108,10 @@
 (declare-fun upath (BSeq) BSeq)
 (declare-fun uquery (BSeq) BSeq)
 (declare-fun urlparses (BSeq) Bool)
-(assert (forall ((s BSeq) (h BSeq) (p BSeq) (q BSeq)) (! (urlparses (urlstring4 s h p q)) :pattern ((urlstring4 s h p q)))))
-(assert (forall ((s BSeq) (h BSeq) (p BSeq) (q BSeq)) (! (and (= (uscheme (urlstring4 s h p q)) s) (= (uhost (urlstring4 s h p q)) h) (= (upath (urlstring4 s h p q)) p) (= (uquery (urlstring4 s h p q)) q)) :pattern ((urlstring4 s h p q)))))
+; stated only for the URLs the library writes: scheme otpauth (str!x6f747061757468), host totp or hotp, rooted path
+(assert (forall ((s BSeq) (h BSeq) (p BSeq) (q BSeq)) (! (=> (and (= s str!x6f747061757468) (or (= h str!x746f7470) (= h str!x686f7470)) (>= (len p) 1) (= (at p 0) 47))
+   (and (urlparses (urlstring4 s h p q)) (= (uscheme (urlstring4 s h p q)) s) (= (uhost (urlstring4 s h p q)) h) (= (upath (urlstring4 s h p q)) p) (= (uquery (urlstring4 s h p q)) q)))
+   :pattern ((urlstring4 s h p q)))))
 
 ; ---- syscall/js vocabulary (uninterpreted readings of a JavaScript value) ----
 (declare-fun jstype (Int) Int)
